@@ -20,6 +20,14 @@ def judge(rec, price, ops):
                 return [(o["i"], "the listing shows an order twice: %s" % d["vec"])]
             if not lvl.ts_sorted(d["vec"]):
                 return [(o["i"], "the listing is not in non-decreasing timestamp order: %s" % d["vec"])]
+        if op == "SNAP":
+            # a snapshot is a read: it must show the level as the previous operation left it (and is not itself a new state)
+            if prev is not None and "vec" in d:
+                if lvl.canon_vec(d["vec"]) != lvl.canon_vec(prev["vec"]):
+                    return [(o["i"], "the snapshot's orders differ from the level's: %s vs %s" % (d["vec"], prev["vec"]))]
+                if (d["cv"], d["ch"], d["cc"]) != (prev["cv"], prev["ch"], prev["cc"]):
+                    return [(o["i"], "the snapshot's aggregates differ from the level's")]
+            continue
         if op.startswith("REBUILD ") or op.startswith("FORK "):
             if d.get("built") != "ok":
                 return [(o["i"], "rebuilding a level from its own %s form failed: %s" % (op.split(" ")[1], d.get("built")))]
